@@ -27,6 +27,9 @@ SubF == Sc("sub", <<>>, <<Stmt("A", TRUE, <<FL(1, 2)>>, <<>>, <<I(8)>>, "none"),
 TSubF == Sc("tsub", <<>>, <<Stmt("R", TRUE, <<Par("phi")>>, <<>>, <<I(1)>>, "none"),
                             Stmt("S", TRUE, <<Bin("*", Par("phi"), I(2)), Par("th")>>, <<Kw("g", Par("th"))>>, <<I(0), I(1)>>, "sq"),
                             Stmt("T2", TRUE, <<Bin("+", Bin("*", I(2), Par("phi")), Par("th"))>>, <<>>, <<I(0)>>, "none")>>)
+\* a template whose parameters occur bare and inside expressions, in positional and keyword position (for calls with measured registers)
+RSubF == Sc("rsub", <<>>, <<Stmt("Zr", TRUE, <<FL(1, 10)>>, <<Kw("eps", Par("u"))>>, <<I(0)>>, "none"), Stmt("Rr", TRUE, <<Par("u")>>, <<>>, <<I(1)>>, "none"),
+                            Stmt("Dr", TRUE, <<Bin("*", I(2), Par("g"))>>, <<Kw("h", Bin("+", Par("g"), Par("u")))>>, <<I(1)>>, "none")>>)
 \* two different files that are both written as "common.xbb" in the include line of their including file
 CommonTopF == Sc("Common", <<>>, <<Stmt("Ct", FALSE, <<>>, <<>>, <<I(0), I(1)>>, "sq"), Stmt("Cu", TRUE, <<FL(1, 2)>>, <<>>, <<I(1)>>, "none")>>)
 CommonLibF == Sc("CommonLib", <<>>, <<Stmt("Cl", TRUE, <<I(7)>>, <<>>, <<I(4)>>, "none")>>)
@@ -38,6 +41,7 @@ OuterF == Sc("outer", <<Rel(<<"sub">>, "inner.xbb")>>, <<Call("inner", <<I(4), I
 UtilF == Sc("util", <<Rel(<<"..", "w", "sub">>, "inner.xbb")>>, <<Stmt("U", TRUE, <<I(1)>>, <<>>, <<I(0)>>, "none"), Call("inner", <<I(0), I(5)>>)>>)
 FS7(f) == CASE f = [dirs |-> W, file |-> "sub.xbb"] -> SubF
             [] f = [dirs |-> W, file |-> "tsub.xbb"] -> TSubF
+            [] f = [dirs |-> W, file |-> "rsub.xbb"] -> RSubF
             [] f = [dirs |-> W \o <<"sub">>, file |-> "inner.xbb"] -> InnerF
             [] f = [dirs |-> W, file |-> "outer.xbb"] -> OuterF
             [] f = [dirs |-> <<"ROOT", "lib">>, file |-> "util.xbb"] -> UtilF
@@ -47,7 +51,7 @@ FS7(f) == CASE f = [dirs |-> W, file |-> "sub.xbb"] -> SubF
             [] f = [dirs |-> W \o <<"lib2">>, file |-> "common.xbb"] -> CommonLib2F
             [] f = [dirs |-> W \o <<"lib2">>, file |-> "chip2.xbb"] -> Chip2F
             [] OTHER -> NoFile
-Files == << [path |-> [dirs |-> W, file |-> "sub.xbb"], s |-> SubF], [path |-> [dirs |-> W, file |-> "tsub.xbb"], s |-> TSubF],
+Files == << [path |-> [dirs |-> W, file |-> "rsub.xbb"], s |-> RSubF], [path |-> [dirs |-> W, file |-> "sub.xbb"], s |-> SubF], [path |-> [dirs |-> W, file |-> "tsub.xbb"], s |-> TSubF],
             [path |-> [dirs |-> W \o <<"sub">>, file |-> "inner.xbb"], s |-> InnerF], [path |-> [dirs |-> W, file |-> "outer.xbb"], s |-> OuterF],
             [path |-> [dirs |-> <<"ROOT", "lib">>, file |-> "util.xbb"], s |-> UtilF],
             [path |-> [dirs |-> W, file |-> "common.xbb"], s |-> CommonTopF], [path |-> [dirs |-> W \o <<"lib">>, file |-> "common.xbb"], s |-> CommonLibF],
@@ -62,7 +66,8 @@ Mains == { Sc("m1", <<Rel(<<>>, "sub.xbb")>>, <<>>),
            Sc("m6", <<Rel(<<"sub">>, "inner.xbb"), Rel(<<>>, "outer.xbb")>>, <<>>),
            Sc("m7", <<Rel(<<"lib">>, "chip.xbb"), Rel(<<>>, "common.xbb")>>, <<>>),      \* nested "common.xbb" and an own "common.xbb": different files
            Sc("m8", <<Rel(<<"lib2">>, "chip2.xbb"), Rel(<<>>, "common.xbb")>>, <<>>),    \* ... that also declare the same program name
-           Sc("m9", <<Rel(<<>>, "common.xbb"), Rel(<<"lib2">>, "chip2.xbb")>>, <<>>) }   \* the opposite order
+           Sc("m9", <<Rel(<<>>, "common.xbb"), Rel(<<"lib2">>, "chip2.xbb")>>, <<>>),
+           Sc("m10", <<Rel(<<>>, "rsub.xbb"), Rel(<<>>, "tsub.xbb")>>, <<>>) }   \* the opposite order
 GoodItems == { Call("sub", <<I(0), I(1), I(2)>>), Call("sub", <<I(5), I(4), I(7)>>),
            Call("Common", <<I(6), I(7)>>), Call("chip", <<I(1), I(0), I(3)>>), Call("chip2", <<I(2), I(4)>>), Call("CommonLib", <<I(5)>>),
            \* template parameters of the including script handed down, also under swapped names
@@ -74,6 +79,9 @@ GoodItems == { Call("sub", <<I(0), I(1), I(2)>>), Call("sub", <<I(5), I(4), I(7)
            CallK("tsub", <<Kw("phi", [t |-> "neg", a |-> I(1)]), Kw("th", I(1))>>, <<I(0), I(2)>>),
            CallK("tsub", <<Kw("phi", [t |-> "neg", a |-> I(2)]), Kw("th", I(1))>>, <<I(2), I(0)>>),
            CallK("tsub", <<Kw("phi", [t |-> "neg", a |-> I(2)]), Kw("th", FL(1, 1))>>, <<I(1), I(3)>>),
+           \* measured registers handed to a template: bare, inside an expression, next to a number
+           CallK("rsub", <<Kw("u", [t |-> "reg", n |-> 3]), Kw("g", FL(1, 2))>>, <<I(4), I(7)>>),
+           CallK("rsub", <<Kw("u", Bin("*", I(2), [t |-> "reg", n |-> 3])), Kw("g", [t |-> "reg", n |-> 1])>>, <<I(5), I(6)>>),
            Call("outer", <<I(6), I(7)>>), Call("inner", <<I(1), I(0)>>), Call("util", <<I(3), I(2)>>),
            Stmt("G", TRUE, <<I(1)>>, <<>>, <<I(0)>>, "none"), [t |-> "var", ty |-> "float", x |-> "v", e |-> FL(1, 2)],
            \* calls inside a loop body, with keyword values and modes that depend on the loop variable
